@@ -34,7 +34,15 @@ RULE = ("bin: every one of the 35 dunders x operand kind {Stream, list, tuple, g
         "over all node kinds; non-trivial = depth >= 2 and a non-empty result. conc: five concrete element types "
         "through every dunder; non-trivial = no exception and non-empty. ew: (name, pos) x layout x 16 kinds; "
         "non-trivial = iterable broadcast argument with >= 1 element. math: every wrapper x kind x call form; "
-        "non-trivial = container input with >= 1 element. Distinct = distinct case hash.")
+        "non-trivial = container input with >= 1 element. Round 2: operands / selves built from itertools, "
+        "lazy_itertools and builtin objects (repeat(v, n) n=0..3 and endless, islice, takewhile, chain, cycle, map, "
+        "filter, deque, dict views, range, array, thub, object with only __iter__); every position of a result is "
+        "pulled and an exception raised by the element operation is recorded IN its position while the consumer keeps "
+        "pulling (symbolic elements of source 'boom' raise in every operator; heterogeneous concrete elements with "
+        "zero divisors, negative shifts, complex orderings); two results of the same call on fresh objects are "
+        "consumed alternately and must agree, the caller's containers must be unchanged; math: containers of "
+        "equal-but-distinct numbers (1 / 1.0 / True / Fraction(1), 0.0 / -0.0, complex zero signs) preceded by a "
+        "call on the reversed container, compared type- and sign-exactly. Distinct = distinct case hash.")
 EXHAUSTIVE = {"quick": False, "thorough": False}   # bin / ew / math grids are enumerated completely, expr trees are sampled
 trusted_base = [
   "element-level meaning of Python's operators, getattr, call and abs is an oracle (Section variables opsem, "
@@ -43,7 +51,9 @@ trusted_base = [
   "translator harness/C01_translate.py (Python ast, fail-closed) produces Gen_OpTable.v from lazy_core.py / "
   "lazy_math.py / lazy_midi.py; the three StreamMeta templates, __getattr__/__call__/__abs__ and elementwise are "
   "hand-modelled and tied by correspondence on symbolic elements (class Sym, harness/C01_sym.py)",
-  "exceptions raised by an element operation are only observed (iteration stops there); numpy branch of "
+  "an element operation that raises is the literal raise:<Exception> in its position (map objects carry on: "
+  "checked position by position for one operator call; in NESTED expressions and in elementwise results, which are "
+  "generators and end at the first exception, exceptions are not part of the theorems); numpy branch of "
   "elementwise, dict / bytes / array inputs and nested iterables as elements are not modelled",
 ]
 ASSUMPTIONS = ["map/zip/generator semantics of CPython are as documented (map over two iterators stops with the shorter)",
@@ -109,7 +119,17 @@ def mk_iterable(al, kind, src):
 # operand kinds built from itertools / lazy_itertools / builtin objects with their own length semantics;
 # the model sees each of them as what it is: an iterable with its finite (or endless) sequence of items
 EXOTIC_REPEAT = ["it_repeat", "al_repeat", "stream_of_repeat"]
-EXOTIC_OTHER = ["islice", "takewhile", "chain", "map", "deque", "dictkeys", "dictvalues", "al_chain", "filter"]
+EXOTIC_OTHER = ["islice", "takewhile", "chain", "map", "deque", "dictkeys", "dictvalues", "al_chain", "filter",
+                "onlyiter", "thub"]
+
+
+class OnlyIter(object):
+  """An object with nothing but __iter__."""
+  def __init__(self, els):
+    self._els = list(els)
+
+  def __iter__(self):
+    return iter(self._els)
 EXOTIC_INT = ["range", "array"]           # their items are the ints 0..n-1
 
 
@@ -132,6 +152,10 @@ def mk_exotic(al, kind, els):
     return filter(lambda v: True, list(els))
   if kind == "deque":
     return collections.deque(els)
+  if kind == "onlyiter":
+    return OnlyIter(els)
+  if kind == "thub":
+    return al.thub(al.Stream(list(els)), 1)
   if kind == "dictkeys":
     return dict.fromkeys(els).keys()
   if kind == "dictvalues":
@@ -164,18 +188,19 @@ def observe_stream(res, al, cap=CAP):
     return {"notimpl": True}
   if type(res) is not al.Stream:
     return {"raise": "NotAStream:" + type(res).__name__}
+  # every position is pulled: an exception is recorded in its place and the consumer keeps asking
   items = []
   itr = iter(res)
-  try:
-    for _ in range(cap):
-      try:
-        v = next(itr)
-      except StopIteration:
-        return {"items": items, "st": "ended"}
-      items.append(S.cval(v))
-    return {"items": items, "st": "more"}
-  except Exception as e:
-    return {"items": items, "st": "raise:" + type(e).__name__}
+  for _ in range(cap):
+    try:
+      v = next(itr)
+    except StopIteration:
+      return {"items": items, "st": "ended"}
+    except Exception as e:
+      items.append(["l", "raise:" + type(e).__name__])
+      continue
+    items.append(S.cval(v))
+  return {"items": items, "st": "more"}
 
 
 def sobs_lit(o):
@@ -207,7 +232,7 @@ def operand_obj(al, o):
   if k == "ignored":
     return ignored_instance(al)
   if k == "sym":
-    return Sym(o["t"])
+    return S.to_sym(o["t"])
   if k == "int":
     return o["t"][1]
   if k in EXOTIC_REPEAT:
@@ -280,6 +305,8 @@ def gen_bin(tier, rng):
             modes.append("syntax")                     # Stream op Stream always runs the plain dunder
           if base in MIRROR and kind != "stream":
             modes.append("mirror")
+          if tier == "quick" and kind == "tuple":
+            modes = modes[-1:]                         # a tuple takes the same path as a list: one mode in quick
           for mode in modes:
             yield {"dname": dname, "mode": mode, "self": ss, "others": [{"kind": kind, "src": os_}],
                    "tags": ["binary", "rev" if rev else "plain", kind, mode, rel]}
@@ -293,6 +320,8 @@ def gen_bin(tier, rng):
           yield {"dname": dname, "mode": mode, "self": ss, "others": [sc],
                  "tags": ["binary", "rev" if rev else "plain", "scalar-" + sc["kind"], mode]}
   for c in gen_bin_exotic(tier):
+    yield c
+  for c in gen_bin_raising(tier):
     yield c
   # edge stream: ignored class, unknown dunders, wrong number of arguments
   for dname in ("__add__", "__radd__", "__lt__", "__rmatmul__", "__pow__"):
@@ -325,6 +354,8 @@ def gen_bin_exotic(tier):
     for ss in selfs:
       for n in (0, 1, 2, 3, None):
         for kind in EXOTIC_REPEAT:
+          if tier == "quick" and kind != "it_repeat" and n in (1, 3):
+            continue
           modes = ["direct"]
           if kind == "it_repeat" or not rev:
             modes.append("syntax")
@@ -354,7 +385,7 @@ def gen_bin_exotic(tier):
   for dname in EXOTIC_DUNDERS:
     func, rev, _ = DUNDERS[dname]
     for kind in EXOTIC_OTHER + EXOTIC_INT + ["cycle"]:
-      for ss in (SELF_SRCS[0], SELF_SRCS[2], SELF_SRCS[4]):
+      for ss in ((SELF_SRCS[0], SELF_SRCS[2], SELF_SRCS[4]) if tier != "quick" else (SELF_SRCS[2], SELF_SRCS[4])):
         for m in lens:
           if kind == "cycle":
             if m == 0:
@@ -363,7 +394,9 @@ def gen_bin_exotic(tier):
           else:
             src = int_src(m) if kind in EXOTIC_INT else {"fin": svars("y", m)}
           modes = ["direct"]
-          if not (rev and kind in ("dictkeys", "al_chain")):   # dict views have their own set operators; al.chain is a Stream
+          # dict views have their own set operators; al.chain / thub are Streams; a thub is an instance of a
+          # SUBCLASS of Stream, so Python runs ITS mirrored comparison first
+          if not (rev and kind in ("dictkeys", "al_chain", "thub")) and not (kind == "thub" and func.strip("_") in MIRROR):
             modes.append("syntax")
           for mode in modes:
             yield {"dname": dname, "mode": mode, "self": ss,
@@ -378,15 +411,74 @@ def gen_bin_exotic(tier):
                  "tags": ["binary", "rev" if rev else "plain", "self-" + kind, "exotic"]}
 
 
+def gen_bin_raising(tier):
+  """Element operations that raise at SOME positions (symbolic elements of source "boom"): the observer
+  catches the exception at that position and keeps pulling; every later position must still be there."""
+  x = lambda i: ["v", "x", i]
+  y = lambda i: ["v", "y", i]
+  b = lambda i: ["v", "boom", i]
+  selfs = [{"fin": [x(0), b(1), x(2), x(3)]}, {"fin": [b(0), x(1)]}, {"fin": [x(0), x(1), b(2)]},
+           {"fin": [x(0), x(1), x(2)]}, {"cyc": [x(0), b(1), x(2)]}]
+  for dname in sorted(DUNDERS):
+    func, rev, arity = DUNDERS[dname]
+    base = func.strip("_")
+    for ss in selfs:
+      if arity == 1:
+        for mode in ("direct", "syntax"):
+          yield {"dname": dname, "mode": mode, "self": ss, "others": [], "tags": ["unary", mode, "raising"]}
+        continue
+      scalars = [({"kind": "sym", "t": ["v", "k", 0]}, ["direct", "syntax"]),
+                 ({"kind": "sym", "t": b(9)}, ["direct"] if rev else ["direct", "syntax"]),
+                 ({"kind": "int", "t": ["c", 5]}, ["direct"] if base in MIRROR else ["direct", "syntax"])]
+      for sc, modes in scalars:
+        for mode in modes:
+          yield {"dname": dname, "mode": mode, "self": ss, "others": [sc],
+                 "tags": ["binary", "rev" if rev else "plain", "scalar", mode, "raising"]}
+      for kind in (("list", "stream", "gen") if tier != "quick" else ("list", "stream")):
+        for os_ in ({"fin": [y(0), y(1), b(2), y(3), y(4)]}, {"fin": [b(0), y(1), y(2)]}, {"fin": [y(0), y(1)]})[:3 if tier != "quick" else 2]:
+          mode = "direct" if (rev and kind == "stream") or tier == "quick" else "syntax"
+          yield {"dname": dname, "mode": mode, "self": ss, "others": [{"kind": kind, "src": os_}],
+                 "tags": ["binary", "rev" if rev else "plain", kind, mode, "raising"]}
+
+
 def run_bin(c):
   import audiolazy as al
   try:
     s = mk_stream(al, c["self"])
     others = [operand_obj(al, o) for o in c["others"]]
+    snap = [(o, list(o)) for o in others if type(o) in (list, tuple, collections.deque)]
     res = call_dunder(al, c["dname"], c["mode"], s, others)
+    # a second, independent result of the same call on fresh objects, consumed alternately with the first:
+    # two live results must not share any state
+    twin = call_dunder(al, c["dname"], c["mode"], mk_stream(al, c["self"]), [operand_obj(al, o) for o in c["others"]])
   except Exception as e:
     return {"raise": type(e).__name__}
-  return observe_stream(res, al)
+  if res is NotImplemented or type(res) is not al.Stream or type(twin) is not al.Stream:
+    return observe_stream(res, al)
+  o1, o2 = observe_interleaved(res, twin, al)
+  if o1 != o2:
+    return {"raise": "TwinResultsDiffer"}
+  for obj, before in snap:                      # the caller's containers are left as they were
+    after = list(obj)
+    if len(after) != len(before) or any(a is not b_ for a, b_ in zip(after, before)):
+      return {"raise": "OperandMutated"}
+  return o1
+
+
+def observe_interleaved(r1, r2, al, cap=CAP):
+  """observe_stream on two results, pulling one position from each in turn."""
+  outs, its, done = [[], []], [iter(r1), iter(r2)], [None, None]
+  for _ in range(cap):
+    for j in (0, 1):
+      if done[j]:
+        continue
+      try:
+        outs[j].append(S.cval(next(its[j])))
+      except StopIteration:
+        done[j] = "ended"
+      except Exception as e:
+        outs[j].append(["l", "raise:" + type(e).__name__])
+  return tuple({"items": outs[j], "st": done[j] or "more"} for j in (0, 1))
 
 
 def lit_bin(c, o):
@@ -459,7 +551,8 @@ def rand_tree(rng, depth, counter):
   if k < 0.75:
     if rng.random() < 0.35:          # an itertools / builtin object as the operand
       kind = rng.choice(EXOTIC_REPEAT + ["it_repeat"] + EXOTIC_OTHER)
-      mode = "direct" if (rev and kind in ("dictkeys", "al_chain", "al_repeat", "stream_of_repeat")) \
+      mode = "direct" if (rev and kind in ("dictkeys", "al_chain", "thub", "al_repeat", "stream_of_repeat")) \
+             or (kind == "thub" and base in MIRROR) \
              else rng.choice(["direct", "syntax"])
       if kind in EXOTIC_REPEAT:
         v, n = ["v", fresh(), 0], rng.choice([0, 1, 2, 3, None])
@@ -590,6 +683,8 @@ def conc_val(ty, j):
 
 
 def gen_conc(tier, rng):
+  for c in gen_conc_mixed(tier):
+    yield c
   reps = 1 if tier == "quick" else 4
   for dname in sorted(DUNDERS):
     func, rev, arity = DUNDERS[dname]
@@ -609,6 +704,33 @@ def gen_conc(tier, rng):
           mode = "direct" if (rev and kind == "stream") else ["direct", "syntax"][(rep + len(kind)) % 2]
           yield {"dname": dname, "mode": mode, "ty": ty, "xs": xs, "other": {"kind": kind, "ys": ys},
                  "tags": ["binary", ty + "/" + oty, kind]}
+
+
+MIXED_XS = [["int", 0], ["int", 3], ["float", 1], ["complex", 0], ["Fraction", 1], ["bool", 1], ["int", 1], ["float", 3]]
+MIXED_YS = [["int", 3], ["float", 2], ["int", 1], ["int", 0], ["bool", 1], ["Fraction", 0], ["complex", 1], ["int", 2]]
+
+
+def gen_conc_mixed(tier):
+  """Heterogeneous elements (7, 0, -0.25, 1+2j, -7/2, False, -3, 0.1): for most operators SOME positions raise
+  (zero divisor, negative shift, ordering a complex, bitwise on a float); every position is observed."""
+  for dname in sorted(DUNDERS):
+    func, rev, arity = DUNDERS[dname]
+    if arity == 1:
+      for mode in ("direct", "syntax"):
+        yield {"dname": dname, "mode": mode, "ty": "mixed", "xs": MIXED_XS, "other": None, "tags": ["unary", "mixed"]}
+      continue
+    for sc in (["int", 3], ["int", 1], ["float", 0], ["int", 0], ["complex", 0], ["Fraction", 1], ["bool", 0]):
+      for mode in ("direct", "syntax"):
+        if mode == "syntax" and dname == "__rpow__" and sc[0] == "Fraction":
+          continue     # Fraction.__pow__(q, stream) itself turns q into a float before Stream.__rpow__ is tried
+        yield {"dname": dname, "mode": mode, "ty": "mixed", "xs": MIXED_XS, "other": {"kind": "scalar", "ys": [sc]},
+               "tags": ["binary", "mixed", "scalar"]}
+    for kind in ("list", "stream"):
+      mode = "direct" if (rev and kind == "stream") else "syntax"
+      yield {"dname": dname, "mode": mode, "ty": "mixed", "xs": MIXED_XS, "other": {"kind": kind, "ys": MIXED_YS},
+             "tags": ["binary", "mixed", kind]}
+      yield {"dname": dname, "mode": "direct", "ty": "mixed", "xs": MIXED_YS, "other": {"kind": kind, "ys": MIXED_XS[:5]},
+             "tags": ["binary", "mixed", kind]}
 
 
 def conc_objs(c):
@@ -671,7 +793,8 @@ def lit_conc(c, o):
 
 
 def nontrivial_conc(c, o):
-  return bool(o.get("items")) and o.get("st") == "ended"
+  items = o.get("items") or []
+  return o.get("st") == "ended" and any(not (t[0] == "l" and t[1].startswith("raise:")) for t in items)
 
 
 # ------------------------------------------------------------------ containers for the broadcast families
@@ -851,7 +974,16 @@ def run_ew(c):
   out = {"args": desc_args, "kw": desc_kw}
   try:
     wrapped = al.elementwise(c["name"], c["pos"])(S.symfunc("f"))
+    snap = [(o, list(o)) for o in list(args) + list(kw.values()) if type(o) in (list, tuple, collections.deque, set, frozenset)]
     res = wrapped(*args, **kw)
+    for obj, before in snap:
+      after = list(obj)
+      if res is obj and type(obj) not in (tuple, frozenset):
+        out["raise"] = "ResultIsTheArgument"
+        return out
+      if len(after) != len(before) or any(a is not b_ for a, b_ in zip(after, before)):
+        out["raise"] = "ArgumentMutated"
+        return out
   except Exception as e:
     out["raise"] = type(e).__name__
     return out
@@ -892,8 +1024,8 @@ MATH_POOLS = {
   "asinh": [0, 1.0, -2.5, 0.5], "sin": [0, 1.0, -2.5, 0.5], "cos": [0, 1.0, -2.5, 0.5], "tan": [0, 1.0, -2.5, 0.5],
 }
 # extra (secondary) arguments used with some functions: (positional extras, keyword extras)
-MATH_EXTRAS = {"log": [([], {}), ([2], {}), ([], {"base": 10.0})], "ln": [([], {}), ([3], {})],
-               "midi2str": [([], {}), ([False], {}), ([], {"sharp": False})]}
+MATH_EXTRAS = {"log": [([], {}), ([2], {}), ([], {"base": 10.0}), ([None], {})], "ln": [([], {}), ([3], {})],
+               "midi2str": [([], {}), ([False], {}), ([], {"sharp": False}), ([True], {})]}
 
 
 _MN = ["acos", "acosh", "asin", "asinh", "atan", "atanh", "ceil", "cos", "cosh", "degrees", "erf", "erfc", "exp",
@@ -980,11 +1112,61 @@ def gen_math(tier, rng):
                  "tags": [fname, kind, form]}
     if fname in ("exp", "sqrt", "factorial", "dB10", "sign", "midi2freq", "log2", "absolute"):
       yield {"fname": fname, "form": "pos", "kind": "range", "n": 4, "ea": [], "ekw": [], "tags": [fname, "range", "pos"]}
+    # containers whose elements are equal-but-distinct numbers (types, zero signs): the i-th output must be
+    # the function of the i-th element itself, type- and sign-exactly (compared as type tag + float.hex text)
+    for which in sorted(MIXED):
+      for kind in (MIXED_KINDS if tier != "quick" else MIXED_KINDS[:2] + [MIXED_KINDS[3 + len(fname) % 5]]):
+        yield {"fname": fname, "form": "pos", "kind": kind, "n": 8, "ea": [], "ekw": [], "mixed": which,
+               "tags": [fname, kind, "pos", "mixed"]}
     # a str argument is a scalar for elementwise
     yield {"fname": fname, "form": "pos", "kind": "str", "n": 1, "ea": [], "ekw": [], "tags": [fname, "str", "pos"]}
 
 
-def math_inputs(c):
+# elements that compare EQUAL (same hash) without being the same number: other numeric type, other zero sign
+MIXED = {
+  "A": [1, 1.0, True, Fraction(1), -0.0, 0.0, 0, False],
+  "B": [complex(-1, 0.), complex(-1, -0.), -2, -2.0, Fraction(-2), 0j, complex(0., -0.), complex(-2, -0.)],
+}
+MIXED["Ar"] = MIXED["A"][::-1]
+MIXED["Br"] = MIXED["B"][::-1]
+MIXED_KINDS = ["list", "tuple", "deque", "stream", "streamsub", "gen", "map", "filter"]
+
+
+def scalar_ref(al, fname):
+  """The function on ONE element, without any elementwise wrapper (used to keep only inputs it accepts)."""
+  if fname in ("ln", "log"):
+    return al.log.__wrapped__
+  if fname in ("log10", "log2"):
+    return lambda x: al.log.__wrapped__(x, 10 if fname == "log10" else 2)
+  if fname == "str2freq":
+    return lambda x: al.midi2freq.__wrapped__(al.str2midi.__wrapped__(x))
+  if fname == "freq2str":
+    return lambda x: al.midi2str.__wrapped__(al.freq2midi.__wrapped__(x))
+  return unwrapped(al, fname)
+
+
+def mixed_inputs(al, fname, which):
+  ref = scalar_ref(al, fname)
+  def accepted(pool):
+    res = []
+    for x in pool:
+      try:
+        S.cval(ref(x))
+        res.append(x)
+      except Exception:
+        pass
+    return res
+  res = accepted(MIXED[which])
+  if len(res) < 2:
+    res = accepted(MIXED["A" if which in ("A", "B") else "Ar"])
+  if len(res) < 2:
+    res = list(MATH_POOLS.get(fname, DEFAULT_POOL))[:3]
+  return res
+
+
+def math_inputs(c, al=None):
+  if c.get("mixed"):
+    return mixed_inputs(al, c["fname"], c["mixed"])
   pool = MATH_POOLS.get(c["fname"], DEFAULT_POOL)
   if c["kind"] == "range":
     return list(range(c["n"]))
@@ -996,7 +1178,7 @@ def math_inputs(c):
 def run_math(c):
   import audiolazy as al
   fname = c["fname"]
-  xs = math_inputs(c)
+  xs = math_inputs(c, al)
   ea = [L.unjson(e) for e in c["ea"]]
   ekw = dict((k, L.unjson(v)) for k, v in c["ekw"])
   cnt = None
@@ -1017,6 +1199,10 @@ def run_math(c):
     math_oracle(al, fname, v, ea, ekw, tbl, pname)
   out = {"tbl": tbl}
   try:
+    if c.get("mixed"):
+      # history: an earlier call in the same process on the same values in the opposite order, fully consumed
+      pre = fn(make_container(al, c["kind"], xs[::-1])[0])
+      collections.deque(iter(pre), maxlen=0)
     if c["form"] == "kw":
       out["args"] = []
       out["kw"] = [[pname, desc]] + [[k, {"scalar": S.cval(v)}] for k, v in ekw.items()]
